@@ -143,6 +143,18 @@ impl IOQueue {
         });
     }
 
+    /// Append data to the chunk at the front of the queue, that is the chunk
+    /// which is never discarded by `clear_but_last`
+    pub fn write_front(&mut self, buf: &[u8]) {
+        if self.chunks.is_empty() {
+            self.chunks.push_back(Default::default());
+        }
+        if let Some(chunk) = self.chunks.front_mut() {
+            chunk.extend_from_slice(buf);
+            self.length += buf.len();
+        }
+    }
+
     /// Number of available chunks
     pub fn chunks_count(&self) -> usize {
         self.chunks.len()
